@@ -81,6 +81,8 @@ def units_for(prop):
         raise RuntimeError('cannot load contracts: ' + r.stderr[-2000:])
     seen, out = set(), []
     for u in json.loads(r.stdout):
+        if u['name'] in DEFERRED_UNITS:
+            u['deferred'], u['note'] = True, DEFERRED_UNITS[u['name']]
         if prop in u['props'] and (u['module'], u['name']) not in seen:
             # a module may re-export the summaries of another one: keep the first occurrence
             if any(x['name'] == u['name'] and x['trusted'] == u['trusted'] for x in out):
@@ -139,6 +141,14 @@ def source_hash(mod=None):
 # designates what was appended) needs seconds per path: a doubled budget keeps their verdict stable on a busy machine.
 UNIT_BUDGET_SCALE = {'container:Container.add_streamed_objects_to_pack': 2, 'container:Container.pack_all_loose@defaults': 2,
                      'container:Container.pack_all_loose': 2, 'container:Container.pack_all_loose@frame': 2}
+
+
+# Units that are not run (their clauses are counted nowhere; listed in evidence under functions_assumed with this note).
+DEFERRED_UNITS = {
+    'container:Container.pack_all_loose@frame': 'NOT RUN and not counted: the full-frame variant did not finish within 35 minutes at the '
+                                                'doubled solver budget on 23 Sep 2026 and was not re-validated after the last change of the row '
+                                                'predicate; the frame facts it would add are checked by the bounded histories only',
+}
 
 
 def run_unit(u, budget, scale=1):
